@@ -18,8 +18,21 @@ CHECKS = {
         "assumptions": NETSIM_ASSUME,
         "units": [
             {"name": "netsim", "module": "harness", "pkg": "./checks/c01", "test": "TestC01", "tags": "verif",
-             "quick": {"checks": 30, "shards": 16, "timeout": 600},
+             "quick": {"checks": 60, "shards": 16, "timeout": 600},
              "thorough": {"checks": 450, "shards": 16, "timeout": 3600, "shrink": "60s"}},
+        ],
+    },
+    "C02": {
+        "level": "exploration",
+        "rule": "rapid-generated scripts biased to fork trees (fork depth 1-30, lighter / exact tie / heavier by length or by difficulty, valid or invalid at a position, forks below/at/above checkpoints, tip on a checkpoint), revealed by any peer in any order; per delivered headers message an oracle computes from the tree and the pre-state the set of allowed post-states (KEEP / ADOPT / EITHER / checkpoint-failure truncation) and compares the stored chain; work-monotonicity and fork-floor invariants are checked on every step. Non-trivial = some delivered batch reached the reorganisation branch (parent known, not the tip); distinct = distinct case JSON",
+        "assumptions": NETSIM_ASSUME + [
+            "a batch running past the next header checkpoint may be adopted only up to the checkpoint (the client re-requests the rest): both outcomes are accepted",
+            "ADOPT of a heavier fork is asserted only when IsCurrent() held before the message (the sender is then certainly listened to)",
+        ],
+        "units": [
+            {"name": "netsim", "module": "harness", "pkg": "./checks/c02", "test": "TestC02", "tags": "verif",
+             "quick": {"checks": 40, "shards": 16, "timeout": 600},
+             "thorough": {"checks": 500, "shards": 16, "timeout": 3600, "shrink": "60s"}},
         ],
     },
 }
